@@ -20,5 +20,5 @@ def units():
                        "depth %d, all cells: projected centre == integer geometry exactly; x in [0,8), y in [-2,2]" % d, timeout=900, level="B", bound="depth %d" % d))
         us.append(Unit("geom_panic_d%02d" % d, P + "geom_panic_d%02d" % d, ["Layer::center_of_projected_cell", "Layer::check_hash"], "depth %d: cell number >= 12*4^d rejected by a panic" % d, kind="must_panic", allowed_fail=[r"Wrong hash value: too large"], tiers=both if d in (0, 3, 29) else th, timeout=600))
         if d in (0, 3, 29):
-            us.append(Unit("geom_hdxdy_search_d%02d" % d, P + "geom_hdxdy_d%02d" % d, ["Layer::hash_with_dxdy", "Layer::shift_rotate_scale", "discretize", "Layer::depth0_bits", "Layer::build_hash", "(contract stub) proj"], "depth %d: hash_with_dxdy cell < 12*4^d, offsets in [0,1], point in the base cell of the returned cell; time-bounded refutation search" % d, kind="search", tiers=th, timeout=1200, extra=dict(no_native=True)))
+            us.append(Unit("geom_hdxdy_search_d%02d" % d, P + "geom_hdxdy_d%02d" % d, ["Layer::hash_with_dxdy", "Layer::shift_rotate_scale", "discretize", "Layer::depth0_bits", "Layer::build_hash", "(contract stub) proj"], "depth %d: hash_with_dxdy cell < 12*4^d, offsets in [0,1], point in the base cell of the returned cell; time-bounded refutation search" % d, kind="search", tiers=th, timeout=5400, extra=dict(no_native=True)))
     return us
